@@ -39,7 +39,8 @@ CONFIG = {
 REQUIRED = ['dist_with_values_checks', 'dist_generate_checks', 'dist_batch_size_1', 'dist_metric_with_kwargs',
             'dist_scalar_summaries', 'dist_vector_summaries', 'adapt_add_data_calls', 'adapt_scale_checks',
             'adapt_updates', 'adapt_newest_checks', 'adapt_earlier_checks', 'adapt_rounds_ge2',
-            'rejection_runs', 'rejection_rows_checked', 'rejection_second_sample', 'smc_runs', 'smc_populations_checked']
+            'rejection_runs', 'rejection_rows_checked', 'rejection_second_sample', 'smc_runs', 'smc_populations_checked',
+            'dist_integer_or_float32_summaries', 'dist_unsigned_summaries']
 
 KINDS = ['dist', 'adirect', 'dist', 'arej', 'dist', 'adirect', 'dist', 'asmc', 'dist', 'adirect', 'dist', 'dist']
 PLAIN = ['euclidean', 'cityblock', 'chebyshev', 'sqeuclidean', 'canberra', 'braycurtis', 'cosine', 'correlation']
@@ -86,9 +87,11 @@ def arrays(spec):
     return W, scale, offset, coef, obs
 
 
-def build(spec, adaptive, cap=None):
+def build(spec, adaptive, cap=None, obs_override=None):
     import elfi
     W, scale, offset, coef, obs = arrays(spec)
+    if obs_override is not None:
+        obs = obs_override
     m = elfi.ElfiModel(name='c12')
     if spec.get('prior', 'uniform') == 'uniform':
         a = elfi.Prior('uniform', -1.0, 4.0, model=m, name='a')
@@ -218,6 +221,25 @@ def run_dist(ctx, case):
             raise Skip('summary shape not as specified')     # harness precondition, never expected
     check_distance(ctx, spec, out['d'], stack(spec, out, n), obs, 'model.generate')
     ctx.event('dist_generate_checks')
+    if spec['qseed'] % 3 == 0:
+        # count-valued summaries in the integer dtypes simulators of count data produce (unsigned and narrow ones included):
+        # the metric is between the VALUES, whatever the storage type
+        dts = ['uint8', 'uint16', 'uint32', 'uint64', 'int8', 'int16', 'int64', 'float32']
+        dt = np.dtype(dts[int(rs.randint(len(dts)))])
+        top = 120 if dt.kind != 'f' else 1000
+        Xi = rs.randint(0, top, size=(n, W)).astype(dt)
+        obs_i = rs.randint(0, top, size=(1, W)).astype(dt)
+        if spec['metric'] in ('correlation', 'cosine'):
+            Xi[:, 0] += 1
+            obs_i[:, 0] += 1                                  # no constant / all-zero rows for the angle-type metrics
+            Xi[:, -1] = (Xi[:, -1] // 2 + np.arange(n) % 2 + 2).astype(dt)
+        m2, d2, _ = build(spec, adaptive=False, obs_override=obs_i.copy())
+        got = d2.generate(n, with_values=split(spec, Xi))
+        Xf, of = Xi.astype(float), obs_i.astype(float)
+        if np.all(np.isfinite(ssd.cdist(Xf, of, spec['metric'], **metric_kwargs(spec)))):
+            check_distance(ctx, spec, got, Xf, of, 'node.generate(with_values) on %s summaries' % dt)
+            ctx.event('dist_integer_or_float32_summaries')
+            ctx.event('dist_unsigned_summaries', dt.kind == 'u')
     ctx.event('dist_batch_size_1', n == 1)
     ctx.event('dist_metric_with_kwargs', bool(spec['mkw']))
     ctx.event('dist_scalar_summaries', sum(1 for l in layout(spec) if l[3]))
